@@ -102,7 +102,7 @@ func init() {
 			seen := map[string]bool{}
 			for _, fn := range p.FuncsWithPrefix("index.") {
 				for _, typ := range []string{kvsT, mssT, "index.invertedIndex", "index.forwardIndex"} {
-					if len(p.Sites(fn, eng.TouchField(typ+".immutable"))) == 0 {
+					if len(p.SitesDirect(fn, eng.TouchField(typ+".immutable"))) == 0 {
 						continue
 					}
 					k := topFunc(c, fn)
